@@ -22,11 +22,13 @@ CHECKS = {
  "C11": ("exploration", "seeded HOSTILE scenarios splice one hostile item (random bytes, bit flips, every single-field mutation of a valid frame, malformed controls and result bodies, nesting up to 200 000 levels) into the response stream while operations are pending; the driver may not panic, the worker process may not die (each run on a 2 MiB stack inside a supervised child), every pending call must be released in the instant the announced bytes have arrived (not a simulated second later when the server closes), and non-envelope input must end drive() with an error", "6 C11", "seeded fault injection at the byte level with process supervision"),
  "C14": ("exploration", "differential simulation (sampled, reported as exploration): every seeded script over the whole LdapConn / EntryStream surface runs once through Ldap / SearchStream and once through the synchronous facade (hook H5) against the same scripted server on the same kind of paused-clock runtime; decoded wire transcripts, returned values, last_id and virtual completion times must agree up to the point where the connection is compromised (after that the order in which driver and caller notice the loss is schedule-dependent and only reported as coverage)", "6 C14", "differential simulation of the two API surfaces against one scripted peer"),
  "C16": ("exploration", "seeded PAGED scenarios run searches through the PagedResults adapter (alone, before or behind EntriesOnly) against a paging server model; entries returned are compared with the concatenation of all pages, every request the server decodes with the first request and with the cookie chain the server handed out, the final result with the last page's result minus the paging control; caller-supplied paging controls must be refused", "6 C16", "seeded history search against a paging reference model at the simulated peer"),
+ "C17": ("exploration", "seeded establishment scripts through the real with_settings (async and sync) over kernel loopback sockets and real TLS (OpenSSL via native-tls) against a scripted adversarial peer with a CA generated at start-up: every StartTLS answer class, handshake refused / garbage / silent, untrusted or wrong-name certificate under every verification setting, cleartext reply injected after the StartTLS response; the peer records everything it reads in cleartext; Ok is accepted only after a completed acceptable handshake, and the injected reply may never answer the protected bind. Weaker than the simulated lanes: kernel scheduling and TCP segmentation are real, only the peer and the clock are simulated; the oracle is safety-only and timers are armed only where the peer never answers", "6 C17", "scripted adversarial peer and simulated clock around the real establishment code (fault injection at the protocol level)"),
+ "C18": ("exploration", "seeded URL x settings combinations through the real with_settings (async on a paused clock, sync where no timer is involved) against harness-owned loopback listeners and Unix sockets: which endpoint is reached or which error class is returned is compared with the statement (default ports 389/636, missing host = localhost, percent-decoded ldapi path, stream type must match the scheme, timeout bounds StartTLS / TLS establishment against a stalling peer); any panic is a violation. Same limits as C17", "6 C18", "scripted endpoints and simulated clock around the real establishment code"),
  "C04": ("fault_enumeration", "per seeded exchange a fault-free reference run fixes the byte lengths and the decision trace; then EOF / reset at every response byte boundary, write error / server close at every request byte boundary, every flush, an undecodable frame before every response frame, unbind and handle drop at every step; each run is checked for termination of every call and of drive(), no invented values, survival of fully delivered replies (exactly, for read-side faults), immediate failure of later operations, and transport close on unbind / last drop; worker processes are supervised so that an in-poll spin or crash is caught", "6 C04", "fault enumeration over every byte boundary of seeded exchanges, replaying the reference schedule up to the fault"),
  "C12": ("exploration", "seeded TIME scenarios with replies and search items before / at / after deadlines on a simulated clock; every call's value and virtual completion time is compared with a timing model computed from the recorded delivery times (ties are either-outcome); late replies must reach nobody; tables must be clean at quiescent checkpoints", "6 C12", "seeded schedule and timing search on a simulated clock with a timing reference model"),
  "C05": ("exploration", "seeded IDS scenarios position the ID counter at the upper end with arbitrary IDs in use and move it to just below IDs of searches that are still outstanding; server-side check of range / pre-seeded / still-outstanding IDs on every request, table snapshots (hook H4) around every allocation for the wrap-around rule; H3 yield makes wire order differ from allocation order; MUX runs are checked server-side as a by-product", "6 C05", "seeded schedule and history search with inline invariants at the scripted server and at allocation snapshots"),
 }
-PLANNED = ["C02","C03","C04","C05","C06","C11","C12","C14","C16","C17","C18"]
+PLANNED = []
 
 def main():
     commits = subprocess.run(["git","-C","/repo","log","--format=%h %s"],capture_output=True,text=True).stdout.splitlines()
